@@ -218,7 +218,7 @@ var searchFENs = []string{
 	"8/3r4/8/8/K1k5/8/8/8 w - - 0 1",
 	"7k/8/5K2/6Q1/8/8/8/8 w - - 0 1",
 	"7k/5K2/8/6Q1/8/8/8/8 b - - 0 1",
-	"8/8/8/8/8/2k5/1p6/K7 b - - 0 1",
+	"8/8/8/8/8/2k5/1p6/K7 w - - 0 1",
 	"4k3/8/4K3/4P3/8/8/8/8 w - - 0 1",
 	"8/8/8/8/8/5k2/6p1/6K1 w - - 0 1",
 	"6k1/5ppp/8/8/8/8/8/R3K3 w Q - 0 1",
